@@ -500,6 +500,7 @@ func runRegChildren(rc *core.RunCtx) {
 		}
 		if dup != losing[id] {
 			rc.Violate2(own, "duplicate-id-event-count/children", "%s: %d ActorDuplicateIdEvents, %d losing SpawnChild calls", id, dup, losing[id])
+			rc.Violate2("C12", "lifecycle-event-missing/duplicate-id/children", "%s: %d ActorDuplicateIdEvents, %d losing SpawnChild calls", id, dup, losing[id])
 		}
 	}
 	rc.Nontrivial = len(hist) > 2
@@ -509,6 +510,8 @@ func init() {
 	core.Register(&core.Profile{Property: "C10", Name: "children", Weight: 2, Cfg: cfgEngine, Run: runRegChildren,
 		Doc: "one real Engine; a parent actor spawns children from a pool of 1-2 ids through Context.SpawnChild on command (40% of them doomed: the receiver panics in Initialized/Started until the restart budget 0-2 is exhausted, so the child lives and dies inside the call), 1-3 tasks stop/poison-and-wait and look up the children meanwhile; oracle: porcupine linearizability against the set-of-registered-ids model, Producer runs per winning spawn (1 + restarts of a doomed child) and never for a loser, one ActorDuplicateIdEvent per losing spawn: an id whose actor died can be spawned again",
 		Faults: []string{"actor-crash-in-Initialized", "actor-crash-in-Started", "restart-budget-exceeded", "concurrent stop/poison"}})
+	core.Register(&core.Profile{Property: "C12", Name: "duplicate-child-events", Weight: 1, Cfg: cfgEngine, Run: runRegChildren,
+		Doc: "the SpawnChild scenario of C10 (a parent spawning children from a pool of 1-2 ids on command, some doomed, stop/poison callers); oracle for C12: exactly one ActorDuplicateIdEvent per SpawnChild call that lost to a live child of the same id"})
 	base := "one real Engine; 2-4 tasks doing Spawn / stop-and-wait / GetPID / Send over a pool of 1-3 ids; each operation stamped call/return with a global event counter; "
 	core.Register(&core.Profile{Property: "C10", Name: "registry", Weight: 3, Cfg: cfgEngine, Run: runRegistry(true),
 		Doc: base + "oracle: porcupine linearizability against 'set of registered ids' (Spawn wins iff absent, StopAndWait removes, GetPID reads), Producer runs once per winning spawn and never for a loser, one ActorDuplicateIdEvent per losing spawn, successive actors under one id never overlap"})
